@@ -133,6 +133,7 @@ func zzStepEnv() *env.Env {
 // zzRunNode runs the node through the public entry point RunContext
 // (Debug=false) and reports (value, err, panicked).
 var zzPanicMsg string
+var zzScopeAfter *env.Env
 
 func zzRunNode(e *env.Env, node interface{}, cat string) (v interface{}, err error, panicked bool) {
 	zzPanicMsg = ""
@@ -158,8 +159,18 @@ func zzRunNode(e *env.Env, node interface{}, cat string) (v interface{}, err err
 			zzPanicMsg = fmt.Sprint(r)
 		}
 	}()
-	v, err = RunContext(context.Background(), e, &Options{Debug: false}, stmt)
-	return v, err, false
+	// the body of RunContext, kept in step with it, so that the current scope
+	// can be observed afterwards (C04-S1)
+	ri := runInfoStruct{ctx: context.Background(), env: e, options: &Options{Debug: false}, stmt: stmt, rv: nilValue}
+	ri.runSingleStmt()
+	zzScopeAfter = ri.env
+	if len(ri.defers) > 0 {
+		ri.runDefers()
+	}
+	if ri.err == ErrReturn {
+		ri.err = nil
+	}
+	return ri.rv.Interface(), ri.err, false
 }
 
 // zzStepMakers: the expression child at position `vary` ranges over the whole
@@ -281,6 +292,10 @@ func zzStepKind(k int, classes int) {
 	if panicked {
 		return
 	}
+	// C04-S1: after any statement finishes - normally, by break/continue/
+	// return, or by an error - execution continues in exactly the scope that
+	// was current before it
+	zz.Assert(zzScopeAfter == e, "C04.S1.scope-restored/"+kind)
 	if err == nil {
 		// closure: the value handed back is well formed (RunContext already
 		// called Interface() on it, so reaching here means it was)
